@@ -79,7 +79,7 @@ def exhaustive(tier):
 
 def required(tier):
     return {"sequences": 5000, "failed_activations": 1500, "distinct_model_stacks": 20,
-            "twin_comparisons": 5000, "context_fingerprints": 1000, "decorated_calls": 500}
+            "twin_comparisons": 5000, "context_fingerprints": 1000, "decorated_calls": 500, "no_op_stack_operations": 1000}
 
 
 def shards(tier, seed):
@@ -330,6 +330,19 @@ def run_sequence(seq, pint, rec, probe_each=False):
     newunits = [n for n, _ in mach.defs]
     got = battery(mach.ureg, pint, newunits)
     want = battery(mach.twin(), pint, newunits)
+    if sum(map(len, seq)) % 3 == 0:
+        # operations that by their own description change nothing - leaving ZERO contexts, a with-block that
+        # names no context - applied to the aged registry only (never to the twin), which is then questioned
+        # once more (every third sequence: one more battery each)
+        try:
+            mach.ureg.disable_contexts(0)
+            with mach.ureg.context():
+                pass
+            rec.count("no_op_stack_operations")
+        except Exception as e:  # noqa: BLE001
+            rec.violation("no-op-stack-operation-raised", {"sequence": list(seq), "err": repr(e)[:200]}, **fields)
+        if got == want:
+            got = battery(mach.ureg, pint, newunits)
     rec.count("twin_comparisons")
     nontrivial = bool(mach.stack) or fields["after_failed_activation"]
     rec.case(("seq",) + tuple(seq), nontrivial=nontrivial)
